@@ -728,6 +728,14 @@ class Interp:
 
     def _exec_for(self, s, env):
         it = self.eval(s.iter, env)
+        shift = None
+        if isinstance(it, RangeV) and len(it.args) == 2 and all(isinstance(a, Num) for a in it.args):
+            k0 = nf.as_int(it.args[0].nf)
+            if k0 is not None and k0 != 0 and nf.as_int(it.args[1].nf) is None:
+                # range(a, n) with a constant start: the counter is i + a with i running over range(n - a) - the loop is
+                # recorded in that normal form, so `for k in range(1, n): x[k] = f(x[k - 1])` reads like the 0-based loop
+                shift = it.args[0]
+                it = RangeV([Num(nf.sub(it.args[1].nf, it.args[0].nf))])
         self.log("for_iter", s, iter=it)
         items = None
         if isinstance(it, (TupV, SetV)):
@@ -774,7 +782,10 @@ class Interp:
                 self.log("carried", s, name=cn, before=env.lookup(cn))
                 env.set(cn, sym_num(f"{cn}@carried"))
         if isinstance(it, RangeV):
-            self._assign(s.target, sym_num(self._counter_symbol(name, s) if name else "@k"), env, s)
+            cv = sym_num(self._counter_symbol(name, s) if name else "@k")
+            if shift is not None:
+                cv = Num(nf.add(cv.nf, shift.nf))
+            self._assign(s.target, cv, env, s)
         elif isinstance(it, EnumV):
             if isinstance(s.target, ast.Tuple) and len(s.target.elts) == 2 and isinstance(s.target.elts[0], ast.Name):
                 iv = sym_num(self._counter_symbol(s.target.elts[0].id, s))
@@ -1596,6 +1607,15 @@ class Interp:
             if base.items and all(isinstance(r, TupV) and len(r.items) == len(base.items[0].items) for r in base.items) and not base.rowview:
                 return TupV([TupV([r.items[k] for r in base.items], True, arr=True) for k in range(len(base.items[0].items))], True, arr=True)
             return base
+        if isinstance(base, TupV) and getattr(base, "ntcls", None) is not None:
+            # an instance of a typing.NamedTuple subclass of the package: its own methods and properties
+            m = base.ntcls.lookup(attr)
+            if m is not None:
+                owner = next(c for c in base.ntcls.mro() if attr in c.methods)
+                decos = {ast.unparse(d.func if isinstance(d, ast.Call) else d) for d in m.node.decorator_list}
+                if decos & {"property", "functools.cached_property", "cached_property"}:
+                    return self.call(FuncV(m, None, base, owner, raw=True), [], {}, node or m.node, None)
+                return FuncV(m, None, base, owner)
         if isinstance(base, (TupV, DictV, SetV, Buf, StrV, Arr2)):
             if isinstance(base, Arr2) and attr == "shape":
                 return TupV([Num(x) for x in base.shape])
@@ -1639,6 +1659,14 @@ class Interp:
         return nf.subst_sym(self.to_nf(val), {at[1]: nf.sym(J)})
 
     def _index(self, base, idx, node):
+        if isinstance(base, Num) and isinstance(idx, TupV) and len(idx.items) == 2 and _is_slice(idx.items[0]) and _slice_bounds(idx.items[0]) == (None, None):
+            a_ = self.single_atom(base.nf)
+            if a_ is not None and isinstance(idx.items[1], (StrV, TupV)):
+                # frame.loc[:, name(s)]: all rows of the named column(s) - the label-based spelling of frame[name(s)]
+                if a_[0] == "sym" and a_[1].endswith(".loc"):
+                    return self._index(sym_num(a_[1][: -len(".loc")]), idx.items[1], node)
+                if a_[0] == "fn" and a_[1] == ".loc" and len(a_[2]) == 1:
+                    return self._index(Num(nf.unkey(a_[2][0])), idx.items[1], node)
         if isinstance(idx, Buf) and isinstance(base, Num):
             m_ = self._loop_mask(idx)
             if m_ is not None:
@@ -2075,7 +2103,10 @@ class Interp:
             missing = [f for f in fields if f not in vals]
             if missing:
                 raise AnalysisError(f"{self.cur_func()}: NamedTuple {ci.name} constructed without {missing}")
-            return TupV([vals[f] for f in fields], names=tuple(fields))
+            out = TupV([vals[f] for f in fields], names=tuple(fields))
+            if any(c.methods for c in ci.mro()):
+                out.ntcls = ci
+            return out
         if ci.is_dataclass or any(c.is_dataclass for c in ci.mro()):
             bound = {}
             pos = list(args)
@@ -2157,6 +2188,8 @@ class Interp:
                 if "axis" in kwargs and not args:
                     args = [kwargs["axis"]]
                     kwargs = {k: v for k, v in kwargs.items() if k != "axis"}
+                if meth == "sum" and len(args) == 1:
+                    return _h_sum(self, [recv] + list(args), kwargs, {}, node, "numpy.sum")
                 extra = [nf.fn("kw:" + k, self.to_nf(v)) for k, v in sorted(kwargs.items())]
                 return Num(nf.fn(meth, self.to_nf(recv), *[self.to_nf(a) for a in args], *extra))
         if isinstance(recv, TupV) and meth == "index" and len(args) == 1 and isinstance(args[0], StrV) and all(isinstance(x, StrV) for x in recv.items):
@@ -2367,6 +2400,16 @@ def _h_unary(f):
 
 
 def _h_identity(it, args, kwargs, bound, node, qual):
+    if qual == "numpy.squeeze" and args and isinstance(args[0], Num):
+        ax = kwargs.get("axis", args[1] if len(args) > 1 else None)
+        axn = it.to_nf(ax) if ax is not None else None
+
+        def unkeep(a):
+            if a[0] == "fn" and a[1] == "sum_kd" and len(a[2]) == 2 and (axn is None or nf.unkey(a[2][1]) == axn):
+                return nf.fn("sum", nf.unkey(a[2][0]), nf.unkey(a[2][1]))
+            return None
+
+        return Num(nf.subst(args[0].nf, unkeep))
     if qual == "numpy.atleast_1d" and len(args) == 1 and isinstance(args[0], Num) and not getattr(it, "array_mode", False) and getattr(it, "scalar_inputs", True):
         # scalar analysis mode: the argument is a 0-d value, atleast_1d makes it a one-element sequence
         at = it.single_atom(args[0].nf)
@@ -2437,6 +2480,13 @@ def _h_sum(it, args, kwargs, bound, node, qual):
         for a in args[0].items:
             acc = nf.add(acc, it.to_nf(a))
         return Num(acc)
+    kd = kwargs.get("keepdims")
+    kd_val = bool(kd.a) if isinstance(kd, BoolV) and kd.kind == "const" else (bool(nf.cval(kd.nf)) if isinstance(kd, Num) and nf.is_const(kd.nf) else None)
+    if kd_val is not None and len(args) == 2:
+        # keepdims changes the shape only: kept apart (`sum_kd`) until a squeeze of the same axis gives the plain reduction
+        kwargs = {k: v for k, v in kwargs.items() if k != "keepdims"}
+        if kd_val and not kwargs:
+            return Num(nf.fn("sum_kd", *[it.to_nf(a) for a in args]))
     parts = [it.to_nf(a) for a in args] + [nf.fn("kw:" + k, it.to_nf(v)) for k, v in sorted(kwargs.items())]
     return Num(nf.fn("sum", *parts))
 
@@ -2547,8 +2597,9 @@ def _h_range(it, args, kwargs, bound, node, qual):
 
 
 def _h_enumerate(it, args, kwargs, bound, node, qual):
-    if len(args) != 1 or kwargs:
-        return None  # enumerate(x, start): the counter does not start at 0 - not modelled
+    st = kwargs.get("start", args[1] if len(args) > 1 else None)
+    if len(args) > 2 or set(kwargs) - {"start"} or (st is not None and not (isinstance(st, Num) and not st.nf)):
+        return None  # enumerate(x, start) with start != 0: the counter does not start at 0 - not modelled
     return EnumV(args[0])
 
 
@@ -2660,8 +2711,10 @@ def _h_zip(it, args, kwargs, bound, node, qual):
     """zip(s, t, ...) with at least one literal sequence: the literal tuple of (s[k], t[k], ...) up to the shortest literal
     length (an opaque sequence is taken to be at least that long - as the tuple-unpacking form would require)"""
     lits = [a for a in args if isinstance(a, TupV) and not a.rowview]
-    if not lits or kwargs or not all(isinstance(a, (TupV, ExtObj, Num)) for a in args):
+    if not lits or set(kwargs) - {"strict"} or not all(isinstance(a, (TupV, ExtObj, Num)) for a in args):
         return None
+    if "strict" in kwargs and len({len(a.items) for a in lits}) != 1:
+        return None  # strict=True with literal sequences of different lengths raises
     if any(isinstance(a, TupV) and a.rowview for a in args):
         return None
     n = min(len(a.items) for a in lits)
